@@ -223,6 +223,8 @@ def fits(x, n: int, signed: bool):
 
 @model(len)
 def m_len(interp, v):
+    if hasattr(v, "_pyvc_len"):
+        return v._pyvc_len(interp)
     if isinstance(v, SBytes):
         return v.length()
     if isinstance(v, SArr):
@@ -422,6 +424,26 @@ def m_type_call(interp, cls, *args, **kwargs):
     return interp.type_call(cls, args, kwargs)
 
 
+def _install_new_class():
+    import types as _types
+
+    @model(_types.new_class, always=True)
+    def m_new_class(interp, name, bases=(), kwds=None, exec_body=None):
+        # class creation is CPython machinery; only the namespace callback is code of the library
+        body = (lambda ns: interp.call(exec_body, [ns])) if exec_body is not None else None
+        if not isinstance(name, str):
+            name = "".join(str(x) for x in getattr(name, "parts", [name]))  # class name with a symbolic part: cosmetic
+        try:
+            return _types.new_class(name, bases, kwds, body)
+        except (Unsupported, Infeasible, PyRaise):
+            raise
+        except Exception as ex:  # noqa: BLE001
+            raise PyRaise(type(ex), ex, str(ex)) from None
+
+
+_install_new_class()
+
+
 @model(io.BytesIO, always=True)
 def m_bytesio(interp, initial=b""):
     if isinstance(initial, SArr):
@@ -436,6 +458,18 @@ def m_enum_call(interp, cls, value, *a, **k):
     return SEnum(cls, strip(value))
 
 
+def _install_int_dunders():
+    table = {"__add__": ast.Add, "__sub__": ast.Sub, "__mul__": ast.Mult, "__floordiv__": ast.FloorDiv, "__mod__": ast.Mod,
+             "__pow__": ast.Pow, "__lshift__": ast.LShift, "__rshift__": ast.RShift, "__and__": ast.BitAnd, "__xor__": ast.BitXor,
+             "__or__": ast.BitOr}
+    for nm, op in table.items():
+        def mk(op):
+            def m(interp, a, b):
+                return binop(interp, op(), strip(a), strip(b))
+            return m
+        _MODELS[getattr(int, nm)] = mk(op)
+
+
 def _int_new(interp, cls, value=0, *rest):
     r = construct(interp, cls, (value, *rest), {})
     if r is NotImplemented:
@@ -446,6 +480,7 @@ def _int_new(interp, cls, value=0, *rest):
     return r
 
 
+_install_int_dunders()
 model(int.__new__)(_int_new)
 model(float.__new__)(_int_new)
 model(bytes.__new__)(_int_new)
@@ -499,7 +534,7 @@ def construct(interp, cls, args, kwargs):
         return SPtr(cls, strip(v), args[1] if len(args) > 1 else None, args[2] if len(args) > 2 else None)
     if issubclass(cls, (int,)) and (is_symint(strip(v)) or isinstance(v, (SEnum, STyped))):
         return STyped(cls, strip(v)) if TAG_INTS else strip(v)
-    if issubclass(cls, float) and isinstance(v, SFloat):
+    if issubclass(cls, float) and (isinstance(v, SFloat) or is_symint(v)):
         return v
     if issubclass(cls, bytes) and isinstance(v, SBytes):
         return v
@@ -584,6 +619,20 @@ def tagged_getattr(interp, obj, name):
 
 
 def sym_method(interp, recv, name, args, kwargs):
+    if isinstance(recv, z3.BitVecRef):
+        if name == "to_bytes":
+            n, order = args[0], args[1] if len(args) > 1 else kwargs.get("byteorder", "big")
+            if kwargs.get("signed", False):
+                raise Unsupported("signed to_bytes of a bit-vector")
+            w = recv.size()
+            # unsigned conversion: value must be in [0, 2^(8n))
+            if 8 * n < w:
+                ok = z3.ULT(recv, z3.BitVecVal(1 << (8 * n), w)) if 8 * n < w else z3.BoolVal(True)
+                if not interp.truth(z3.And(recv >= 0, ok)):
+                    raise PyRaise(OverflowError, None, "int too big to convert")
+            items = [z3.BV2Int(z3.Extract(8 * i + 7, 8 * i, recv)) if 8 * i + 7 < w else 0 for i in range(n)]
+            return SBytes(items if order == "little" else list(reversed(items)))
+        raise Unsupported(f"int.{name} on bit-vector")
     if is_symint(recv) or is_symbool(recv):
         if name == "to_bytes":
             return to_bytes(interp, recv, *args, **kwargs)
@@ -879,6 +928,8 @@ def binop(interp, op, a, b, inplace=False):
     a, b = strip(a), strip(b)
     if isinstance(a, z3.BitVecRef) or isinstance(b, z3.BitVecRef):
         return bv_binop(interp, t, a, b)
+    if a is None or b is None:
+        raise PyRaise(TypeError, None, f"unsupported operand type(s) for {t.__name__}: NoneType")
     if not (sym.is_intlike(a) or is_symbool(a)) or not (sym.is_intlike(b) or is_symbool(b)):
         raise Unsupported(f"binary {t.__name__} on {type(a).__name__}, {type(b).__name__}")
     za, zb = zint(a), zint(b)
@@ -1187,6 +1238,8 @@ def deep_eq(interp, a, b):
     a, b = (strip(a) if isinstance(a, (SPtr, STyped)) else a), (strip(b) if isinstance(b, (SPtr, STyped)) else b)
     if a is None or b is None:
         return a is b
+    if getattr(a, "_pyvc_model", False) or getattr(b, "_pyvc_model", False):
+        return a is b  # engine stand-ins (fake types, streams) compare by identity
     if isinstance(a, (SBytes, bytes, bytearray)) and isinstance(b, (SBytes, bytes, bytearray)):
         return _norm(SBytes.of(a).eq(SBytes.of(b))) if True else None
     if isinstance(a, SStr) and isinstance(b, SStr):
@@ -1199,6 +1252,10 @@ def deep_eq(interp, a, b):
         return deep_eq(interp, b, a)
     if isinstance(a, SFloat) and isinstance(b, SFloat):
         return _norm(zint(a.bits) == zint(b.bits)) if a.width == b.width else False
+    if isinstance(a, SFloat) and isinstance(b, (int, float)) and not isinstance(b, bool) and b == 0:
+        return _norm(z3.Or(zint(a.bits) == 0, zint(a.bits) == (1 << (a.width - 1))))
+    if isinstance(b, SFloat) and isinstance(a, (int, float)) and not isinstance(a, bool) and a == 0:
+        return deep_eq(interp, b, a)
     if isinstance(a, SArr) and isinstance(b, SArr):
         return _norm(z3.And(zint(a.count) == zint(b.count), zbool(a.raw.eq(b.raw))))
     if isinstance(a, SArr) and isinstance(b, list):
